@@ -100,6 +100,9 @@ pub struct PrintOpts {
     pub anchors_negm: bool,
     /// possessive quantifier `X*+` as atomic group `(?>X*)`
     pub poss_as_atomic: bool,
+    /// 0 = default; 1 = back-references `\k'N'` and group tests `(?('N')..)` with quote delimiters;
+    /// 2 = relative numbers with quote delimiters `\k'-n'`, `(?('-n')..)`; 3 = relative group tests `(?(<-n>)..)` (references as `\k<-n>`)
+    pub quote_refs: u8,
     /// redundant non-capturing groups: the members of every concatenation are wrapped in `(?:..)` two at a time
     pub redundant_groups: bool,
     /// atomic group around a quantified atom, `(?>X*)` / `(?>X*?)`, as the possessive suffix `X*+` / `X*?+`
@@ -142,6 +145,21 @@ impl<'o> P<'o> {
     }
     fn backref(&mut self, g: usize) {
         let named = self.opts.any_named();
+        match self.opts.quote_refs {
+            1 => {
+                self.toks.push(format!("\\k'{}'", g));
+                return;
+            }
+            2 if self.next_group >= g => {
+                self.toks.push(format!("\\k'-{}'", self.next_group - g + 1));
+                return;
+            }
+            3 if self.next_group >= g => {
+                self.toks.push(format!("\\k<-{}>", self.next_group - g + 1));
+                return;
+            }
+            _ => {}
+        }
         if self.opts.rel_backrefs && self.next_group >= g {
             self.toks.push(format!("\\k<-{}>", self.next_group - g + 1));
             return;
@@ -157,6 +175,12 @@ impl<'o> P<'o> {
         self.toks.push(tok);
     }
     fn cond_ref(&mut self, g: usize) -> String {
+        match self.opts.quote_refs {
+            1 => return format!("'{}'", g),
+            2 if self.next_group >= g => return format!("'-{}'", self.next_group - g + 1),
+            3 if self.next_group >= g => return format!("<-{}>", self.next_group - g + 1),
+            _ => {}
+        }
         match self.opts.name(g) {
             Some(n) => format!("<{}>", n),
             None if self.opts.any_named() => format!("<{}>", g),
